@@ -215,6 +215,18 @@ impl Model {
     /// m.table(&[x, y, z], tuples);
     /// ```
     pub fn table(&mut self, vars: &[VarId], tuples: Vec<Vec<Val>>) -> PropId {
+        // Every tuple must have one value per variable; report a malformed table from the solving call
+        if let Some(bad) = tuples.iter().find(|tuple| tuple.len() != vars.len()) {
+            self.constraint_validation_errors.push(crate::core::error::SolverError::InvalidConstraint {
+                message: format!(
+                    "Table constraint validation error: every tuple must have one value per variable (got a tuple of {} values for {} variables)",
+                    bad.len(),
+                    vars.len()
+                ),
+                constraint_name: Some("table".to_string()),
+                variables: None,
+            });
+        }
         self.props.table_constraint(vars.to_vec(), tuples)
     }
 
